@@ -185,3 +185,95 @@ theorem caller_released_witness :
   · subst h1; right; decide
   · left; simp [List.foldl, stepT, step, ht, h1]
 end ApplyP
+
+namespace ApplyP
+/-- only the caller waits for / returns from the event, and the caller never ends at `out` -/
+def Role (c : Tid) (t : Tid) (pc : Pc) : Prop :=
+  ((pc = .waitEv ∨ pc = .returned) → t = c) ∧ (pc = .out → t ≠ c)
+
+theorem step_role {n : Nat} {c : Tid} {sh : Sh} {t : Tid} {pc : Pc} {sh' : Sh} {pc' : Pc}
+    (h : (sh', pc') ∈ step n c sh t pc) (r : Role c t pc) : Role c t pc' := by
+  cases pc with
+  | idle => simp [step] at h; obtain ⟨_, rfl⟩ := h; simp [Role]
+  | claimed idx done =>
+    simp only [step] at h
+    split at h
+    · simp at h; obtain ⟨_, rfl⟩ := h; simp [Role]
+    · split at h
+      · simp at h; obtain ⟨_, rfl⟩ := h
+        by_cases e : t = c <;> simp [Role, e]
+      · simp at h; obtain ⟨_, rfl⟩ := h; simp [Role]
+  | running idx done => simp [step] at h; obtain ⟨_, rfl⟩ := h; simp [Role]
+  | ended done => simp [step] at h; obtain ⟨_, rfl⟩ := h; simp [Role]
+  | sub done =>
+    simp only [step] at h
+    split at h
+    · simp at h; obtain ⟨_, rfl⟩ := h; simp [Role]
+    · simp at h; obtain ⟨_, rfl⟩ := h
+      by_cases e : t = c <;> simp [Role, e]
+  | signal =>
+    simp [step] at h; obtain ⟨_, rfl⟩ := h
+    by_cases e : t = c <;> simp [Role, e]
+  | out => simp [step] at h
+  | waitEv =>
+    simp only [step] at h
+    split at h
+    · simp at h; obtain ⟨_, rfl⟩ := h
+      exact ⟨fun _ => r.1 (Or.inl rfl), by simp⟩
+    · simp at h
+  | returned => simp [step] at h
+
+theorem role_reachable {n : Nat} {c : Tid} {s : St} (h : Reachable n c s) : ∀ t, Role c t (s.pcs t) := by
+  induction h with
+  | init => intro t; simp [Role]
+  | step _ hs ih =>
+    cases hs with
+    | mk t sh' pc' h =>
+      intro t'
+      by_cases e : t' = t
+      · subst e; simpa using step_role h (ih t')
+      · simpa [e] using ih t'
+
+/-- **No deadlock**: for n > 0, a reachable state in which the caller has entered and no thread that has entered can take a
+    step is a state in which the caller has returned. (Threads that never enter are the helpers that never got a thread:
+    the apply does not depend on them.) -/
+theorem quiescent_returned {n : Nat} {c : Tid} {s : St} (h : Reachable n c s) (hn : 0 < n)
+    (hent : s.pcs c ≠ .idle) (hstuck : ∀ t, s.pcs t ≠ .idle → step n c s.sh t (s.pcs t) = []) :
+    s.pcs c = .returned := by
+  have hr := role_reachable h
+  have hshape : ∀ t, s.pcs t = .idle ∨ s.pcs t = .out ∨ s.pcs t = .waitEv ∨ s.pcs t = .returned := by
+    intro t
+    by_cases hi : s.pcs t = .idle
+    · exact Or.inl hi
+    · have hs := hstuck t hi
+      cases hp : s.pcs t with
+      | idle => exact absurd hp hi
+      | out => simp
+      | waitEv => simp
+      | returned => simp
+      | claimed i d =>
+        rw [hp] at hs; simp only [step] at hs
+        split at hs
+        · simp at hs
+        · split at hs <;> simp at hs
+      | running i d => rw [hp] at hs; simp [step] at hs
+      | ended d => rw [hp] at hs; simp [step] at hs
+      | sub d =>
+        rw [hp] at hs; simp only [step] at hs
+        split at hs <;> simp at hs
+      | signal => rw [hp] at hs; simp [step] at hs
+  rcases hshape c with hc | hc | hc | hc
+  · exact absurd hc hent
+  · exact absurd rfl ((hr c).2 hc)
+  · have hq : ∀ t, t ≠ c → s.pcs t = .idle ∨ s.pcs t = .out := by
+      intro t ht
+      rcases hshape t with h1 | h1 | h1 | h1
+      · exact Or.inl h1
+      · exact Or.inr h1
+      · exact absurd ((hr t).1 (Or.inl h1)) ht
+      · exact absurd ((hr t).1 (Or.inr h1)) ht
+    have hsig := caller_released h hn hc hq
+    have hs := hstuck c hent
+    rw [hc] at hs; simp [step, hsig] at hs
+  · exact hc
+end ApplyP
